@@ -108,12 +108,17 @@ func c15genCons(r *Rec, cs string) string {
 		t = "tm"
 	}
 	switch x := r.Rng.Intn(100); {
-	case x < 70:
+	case x < 68:
+		if t == "tm" && c15coin(r, 25) { // tendermint consensus state with degenerate content (rejected by its ValidateBasic since fafdbf1)
+			return "tm:" + c15pick(r, "1:1:1", "0:0:1", "0:1:0", "1:0:0", "0:1:1")
+		}
 		return t
-	case x < 78:
+	case x < 76:
 		return "nil"
-	case x < 84:
+	case x < 82:
 		return "wrong"
+	case x < 86:
+		return "tm:" + c15pick(r, "1:1:1", "0:0:1", "0:1:0", "0:1:1")
 	default:
 		return c15pick(r, "tm", "bsc", "eth", "tss")
 	}
